@@ -384,7 +384,7 @@ fn run_cancel_slice(tier: &str) -> Result<Value, String> {
     if tier == "thorough" {
         c.env("MEMBOUND_THOROUGH", "1");
     }
-    let out = c.output().map_err(|e| format!("cannot run {bin}: {e}"))?;
+    let out = vcore::par::output_retry(&mut c).map_err(|e| format!("cannot run {bin}: {e}"))?;
     let stdout = String::from_utf8_lossy(&out.stdout);
     let line = stdout.lines().rev().find(|l| l.starts_with('{')).ok_or_else(|| format!("no result line; exit {:?}; stderr: {}", out.status.code(), String::from_utf8_lossy(&out.stderr).chars().take(600).collect::<String>()))?;
     let v: Value = serde_json::from_str(line).map_err(|e| format!("bad result: {e}"))?;
